@@ -4,7 +4,7 @@ import ast
 
 from ..program import AnalysisError, walk_local, dotted
 from ..analysis import Spec, src, const_value
-from ..rules import (GWF, EXC, mpt, need_func, stores_to, raise_class,
+from ..rules import (template_sites, GWF, EXC, mpt, need_func, stores_to, raise_class,
                      parent_map, kw, is_const, strip_wrappers)
 from . import common, gitcmds
 from .c12 import _first_exit
@@ -186,21 +186,13 @@ def named_pushes(prog, an, rep):
     # what create_integration_branches yields after the first element are
     # w/ branches (names built from the 'w/{}/{}' constant)
     f = need_func(an, GWF + '.integration.create_integration_branches')
-    fmts = [const_value(x.func.value) for x in
-            walk_local(f.node, include_root=False)
-            if isinstance(x, ast.Call) and isinstance(x.func, ast.Attribute)
-            and x.func.attr == 'format' and
-            isinstance(x.func.value, ast.Constant)]
+    fmts = [t for _, t, _ in template_sites(f)]
     rep.check(fmts == ['w/{}/{}'], R, f.qname + ': yields w/ branches',
               f.where(), 'integration branch names are built from %s' % fmts)
     for q, pref in ((Q + '.get_queue_branch', 'q/{}'),
                     (Q + '.get_queue_integration_branch', 'q/w/{}/{}/{}')):
         g = need_func(an, q)
-        fm = [const_value(x.func.value) for x in
-              walk_local(g.node, include_root=False)
-              if isinstance(x, ast.Call) and
-              isinstance(x.func, ast.Attribute) and x.func.attr == 'format'
-              and isinstance(x.func.value, ast.Constant)]
+        fm = [t for _, t, _ in template_sites(g)]
         rep.check(fm == [pref], R, g.qname + ': produces %s names' % pref,
                   g.where(), 'names are built from %s' % fm)
 
